@@ -96,6 +96,23 @@ def reachable_objects(machine):
         objs.append(("leaf", p))
     for e in Expression.list_of_leaf_expressions:
         objs.append(("leaf", e))
+    # objects written with a null weight (a step size or coefficient that happens to be 0) still depend on their leaves:
+    # scalar multiples, products and the documented constructors keep the term, so asking them for a value asks the leaf
+    try:
+        from PEPit.constraint import Constraint
+        from PEPit.psd_matrix import PSDMatrix
+        lp, le = list(Point.list_of_leaf_points), list(Expression.list_of_leaf_expressions)
+        if lp:
+            x = lp[0]
+            zx = 0 * x
+            objs += [("null_weight", zx), ("null_weight", zx ** 2), ("null_weight", zx * lp[-1]), ("null_weight", (0.0 * x) / 2)]
+        if le:
+            e0 = le[0]
+            ze = 0 * e0
+            objs += [("null_weight", ze), ("null_weight", -ze), ("null_weight", Constraint(ze, "inequality")),
+                     ("null_weight", PSDMatrix([[ze, 0.], [0., 1.]]))]
+    except Exception:
+        pass
     return objs
 
 
@@ -173,7 +190,7 @@ def nofinite_models(rng):
     """Purpose-built models with no finite optimum. Returns list of (name, ops, expected_kind)."""
     from pv import gen
     out = []
-    for kind in ("no_initial_condition", "contradictory", "unbounded_metric", "infeasible_box", "lmi_infeasible"):
+    for kind in ("no_initial_condition", "contradictory", "unbounded_metric", "infeasible_box", "lmi_infeasible", "lmi_not_symmetric"):
         b = gen.Builder(rng)
         cls = b.pick(["SmoothStronglyConvexFunction", "SmoothConvexFunction", "ConvexFunction", "MonotoneOperator",
                       "LipschitzOperator", "StronglyConvexFunction", "SmoothFunction"])
@@ -197,6 +214,14 @@ def nofinite_models(rng):
             b.metric(b.expr([[1.0, "sq", y]]))
         elif kind == "infeasible_box":
             b.cons(d0, "<=", -1.0)
+            b.metric(d1)
+        elif kind == "lmi_not_symmetric":
+            # a matrix inequality is about a SYMMETRIC matrix: entries (i,j) and (j,i) that cannot be equal make it infeasible
+            b.cons(d0, "<=", 1.0)
+            d_ = b.expr([[1.0, "const"], [1.0, "sq", x0]])
+            o1 = b.expr([[b.pick([0.5, 1.0]), "const"]])
+            o2 = b.expr([[-0.5, "const"]]) if rng.random() < 0.5 else b.expr([[1.5, "const"], [1.0, "sq", x0]])
+            b.lmi([[d_, o1], [o2, 2.0]])
             b.metric(d1)
         else:
             b.cons(d0, "<=", 1.0)
@@ -275,6 +300,14 @@ def run_shard(spec):
                 says_none = any(x in st for x in ("unbounded", "infeasible", "dual_infeas", "prim_infeas"))
                 if not says_none:
                     counters["nofinite_status_other:" + st] = counters.get("nofinite_status_other:" + st, 0) + 1
+                    if kind in ("contradictory", "infeasible_box", "lmi_infeasible", "lmi_not_symmetric") and case.outcome[1] is not None \
+                            and "optimal" in st and "inaccurate" not in st:
+                        # infeasible by construction (by a margin of order 1), yet a number comes back with status optimal:
+                        # whatever reached the solver was not the declared model, and the number stands for no solution
+                        counters["nofinite_models_judged"] = counters.get("nofinite_models_judged", 0) + 1
+                        viol.append({"key": "number_returned_on_infeasible_by_construction:" + kind,
+                                     "what": "solve returned %r (status %s) for a model that is infeasible by construction (%s)"
+                                             % (case.outcome[1], st, kind), "program": prog, "config": cfg})
                     continue
                 counters["nofinite_models_judged"] = counters.get("nofinite_models_judged", 0) + 1
                 sig.add("nofinite|%s|%s|%s" % (kind, solver, st))
